@@ -333,7 +333,9 @@ def model_suite(ctx, s_m, n=None):
         if names:
             dn = cx._config.default_scheme(None)
             try:
-                dfacts = facts(names, cx._dummy_secret, P[dn][0].hash(cx._dummy_secret))
+                # the stand-in keywords of the real code (fix ff50ac0), narrowed to what the default scheme's hasher declares
+                dk = {k: v for k, v in getattr(cx, "_dummy_context_kwds", {}).items() if k in P[dn][1]}
+                dfacts = facts(names, cx._dummy_secret, P[dn][0].hash(cx._dummy_secret, **dk))
             except TypeError:
                 dfacts = "-"
         for _line in range(2):
